@@ -56,6 +56,8 @@ def judge_verdict(ctx, vd, case, o, count=True):
         raise core.MachineryError(f"observation {vd['id']} is not a well-formed spec term: {case} {o}")
     if not o["acc"]:
         return failed
+    if tc.capped(ctx) and not (vd["conforms"] and vd["noconfusion"] and vd["idem"]):
+        return ["capped"]
     what = f"{case['site']}: type {tc.type_src(case['tlc']['t'])}, value {tc.show(case['tlc']['v'])}"
     if not vd["conforms"]:
         failed.append("conforms")
